@@ -244,6 +244,18 @@ SPECS["C08"] = {
     "assumptions": ["strings.Title semantics for ASCII identifiers"],
 }
 
+SPECS["C02"] = {
+    "level": "model_checking",
+    "custom": "c02",
+    "groups": [],
+    "quick_programs": ["c02_basic.frugal"],
+    "elems": {"quick": 1, "thorough": 2},
+    "level_text": "Bounded symbolic model checking of GENERATED code: for every program of the catalogue /verif/catalogue/c02_*.frugal the real compiler (built from /repo at check time) emits Go, and gose executes the emitted Read and Write of every struct, union, exception and every service args/result struct against a scripted + recording thrift.TProtocol: a value tree with symbolic scalars/strings/binaries, symbolic presence of every optional field, symbolic union selector and containers of 0..1 (thorough 0..2) elements is encoded as a conforming event stream (fields in declaration or reversed order; optionally one unknown field of symbolic id and one of four types anywhere; or one required field missing), fed to the generated Read, and the resulting object is written by the generated Write: Read must consume the encoding step by step and accept it (reject it when a required field is missing), skip exactly the unknown field with its wire type, and Write must emit exactly the declared field ids, wire types, field and struct names and the decoded values, required and default fields always, optional fields iff set, one field for a union; two-element maps/sets in either order. The oracle model (ids, wire types after typedef/enum/include resolution, requiredness, names) is read from the IDL text by idlmini.py, independently of the generator. Because the generated code only talks to the TProtocol interface the result is protocol independent; thrift's binary/compact/JSON implementations are trusted. Outside: programs beyond the catalogue (programs are enumerated, values symbolic), containers with more elements, default values of absent default-requiredness fields, doubles other than three constants.",
+    "level_note": "Trusted: go/ssa, gose interpreter, z3; idlmini.py as the oracle's IDL reader; the scripted TProtocol in c02_harness.go.tmpl.",
+    "bounds": {"quick": "catalogue program c02_basic; containers 0..1 elements; strings/binaries 0..2 bytes", "thorough": "all catalogue programs; containers 0..2 elements"},
+    "assumptions": ["catalogue IDL files follow the one-field-per-line layout idlmini.py reads"],
+}
+
 OVERLAYS = {}
 
 HOOK_COMMITS = []
